@@ -511,4 +511,47 @@ theorem normName_idem (n : Host) : normName (normName n) = normName n := by
     funext s; exact lower_idem s
   simp [List.map_map, this]
 
+/-! ## Round 4: wiring helpers -/
+
+theorem lookup_setGroup_ne (l : List (String × GroupYaml)) (id id' : String) (g' : GroupYaml)
+    (hne : id' ≠ id) :
+    (l.map fun p => if p.1 == id' then (p.1, g') else p).lookup id = l.lookup id := by
+  induction l with
+  | nil => rfl
+  | cons p tl ih =>
+    obtain ⟨k, v⟩ := p
+    by_cases hk : k = id'
+    · subst hk
+      have h1 : (id == k) = false := by simpa using (Ne.symm hne)
+      simp only [List.map_cons, List.lookup_cons, beq_self_eq_true, ↓reduceIte, h1]
+      exact ih
+    · have hk' : (k == id') = false := by simpa using hk
+      simp only [List.map_cons, List.lookup_cons, hk', Bool.false_eq_true, ↓reduceIte]
+      cases (id == k)
+      · exact ih
+      · rfl
+
+theorem hashVerdict_empty (id : ListId) (f : HashFilter) (host : Host) (qt : QType) :
+    hashVerdict id (emptyHash f) host qt = .none := by
+  simp [hashVerdict, emptyHash]
+
+theorem ssVerdict_nil (id : ListId) (host : Host) (qt : QType) : ssVerdict id [] host qt = .none := by
+  unfold ssVerdict
+  split <;> simp [rewriteHits, processRewrites]
+
+theorem pickKnown_nil (ids : List Nat) : pickKnown ([] : List (Nat × List Rule)) ids = [] := by
+  induction ids with
+  | nil => rfl
+  | cons i tl ih => simp [pickKnown]
+
+theorem firstSome_append (xs ys : List Verdict) :
+    firstSome (xs ++ ys) = match firstSome xs with | .none => firstSome ys | v => v := by
+  induction xs with
+  | nil => simp [firstSome]
+  | cons x xs ih => cases x <;> simp [firstSome, ih]
+
+theorem firstSome_optV_none {α : Type} (cond : Bool) (E : α) (hv : α → Verdict) (hE : hv E = .none) :
+    firstSome (optV (onlyIf cond E) hv) = .none := by
+  cases cond <;> simp [onlyIf, optV, firstSome, hE]
+
 end Agd.Filter
